@@ -222,7 +222,39 @@ package proxy
 //@ // result channel, and writes no memory visible to the other direction (in particular no shared buffer)
 //@ func newWSHandler$1$2
 //@   props C09
+//@   // a direction starts on the reader that holds everything consumed from its connection so far, and on connections
+//@   // without an armed deadline (the handshake timeout must be gone when the tunnel starts)
+//@   requires dst != nil && (wrapperOf[src] == nil || !mayHold[wrapperOf[src]])
+//@   // each connection is the destination of exactly one direction: both of its deadlines must be clear
+//@   requires !readDeadline[dst] && !writeDeadline[dst]
 //@   assigns rd, wr
+//@
+//@ func closeWrite
+//@   props C09
+//@   requires c != nil
+//@   assigns nothing
+//@   ensures nopanic
+//@
+//@ // what a dial function hands out on success: a connection, newly made - no buffered reader has been put over it
+//@ // (assumed of net.Dial / tls.Dial, which is what ServeHTTP passes in)
+//@ func type:dialFunc(network string, address string) (c net.Conn, err error)
+//@   assigns nothing
+//@   ensures err == nil ==> c != nil && wrapperOf[c] == nil
+//@
+//@ // the deferred update of the open-connections gauge
+//@ func newWSHandler$1$1
+//@   trusted
+//@   assigns nothing
+//@
+//@ // the websocket tunnel: set up after the 101 answer, both directions started under the conditions above and both awaited
+//@ func newWSHandler$1
+//@   props C09
+//@   requires w != nil && r != nil && r.URL != nil
+//@   // only deadlines armed by this handler are tracked: the HTTP server clears its own when a connection is hijacked, and
+//@   // a connection that has just been dialled has none
+//@   requires forall c interface{} :: !readDeadline[c] && !writeDeadline[c]
+//@   assigns *
+//@   ensures [both-directions-awaited] chanRecvs - old(chanRecvs) == goSpawns - old(goSpawns)
 //@
 //@ // ---- C16: gRPC calls: route selection, NotFound without a backend, connection reuse and clean-up ---------------
 //@ func makeGRPCTargetKey
@@ -355,5 +387,6 @@ package proxy
 //@ func (*responseWriter).Hijack
 //@   props C07
 //@   requires rw != nil
-//@   assigns nothing
+//@   // hands on the connection together with the server's buffered reader over it (ghosts of C09)
+//@   assigns wrapperOf, mayHold
 //@   ensures lastStatus == old(lastStatus) && statusWrites == old(statusWrites)
